@@ -55,6 +55,6 @@ def parseThm (T : Table) (L : Ladder) (Q : SeqSyms) (ts : List Tok) : Option (Li
 /-- the separators of a sequent are no operator symbols and no binder spellings of the term syntax -/
 abbrev SeqOK (L : Ladder) (Q : SeqSyms) : Prop :=
   (Q.comma ≠ Q.turnA ∧ Q.comma ≠ Q.turnU) ∧
-  ∀ s ∈ [Q.comma, Q.turnA, Q.turnU], L.binderIdx s = none ∧ ∀ j < L.n, (L.at j).has s = false
+  ∀ s ∈ [Q.comma, Q.turnA, Q.turnU], L.binderIdx s = none ∧ (∀ j < L.n, (L.at j).has s = false) ∧ s ≠ L.lbrace
 
 end Holpy.C07
